@@ -169,11 +169,27 @@ class BigTtlTriplesYielder(BaseTriplesYielder):
             return self._parse_cornered_element(cornered_element=a_line[start_index:end_index+1]), end_index + 1
         elif a_line[start_index] == '"':
             end_index = self._find_next_quoted_literal_ending(a_line, start_index)
-            return a_line[start_index:end_index+1], end_index + 1
+            return self._expand_prefixed_datatype(a_line[start_index:end_index+1]), end_index + 1
         else:  # could be a prefixed element, a bnode, a non-string literal... find the next blank anyway
             end_index = self._find_next_blank(a_line, start_index)
             return a_line[start_index:end_index], end_index + 1
 
+
+    def _expand_prefixed_datatype(self, literal_token):
+        """
+        "5"^^ex:dt --> "5"^^<http://example.org/dt> , when ex: was declared with @prefix.
+        Any other literal token is returned as it is.
+        """
+        index_type_mark = literal_token.rfind('"^^')
+        if index_type_mark == -1:
+            return literal_token
+        datatype = literal_token[index_type_mark + 3:]
+        if datatype.startswith("<") or ":" not in datatype:
+            return literal_token
+        prefix = datatype[:datatype.find(":")]
+        if prefix not in self._prefixes:
+            return literal_token
+        return literal_token[:index_type_mark + 3] + "<" + self._prefixes[prefix] + datatype[len(prefix) + 1:] + ">"
 
     def _find_next_blank(self, target_str, start_index):
         pos = target_str.find(" ", start_index)
